@@ -14,9 +14,12 @@
 (*   positional ::= ["-"] digit+ ["." digit*] [block] [exponent]           *)
 (*   block    ::= "[" digit+ [", period " dec+] "]..."   (needs the ".")   *)
 (*   exponent ::= "e" ["-"] dec+          meaning  x base^N, N in decimal  *)
-(*   fraction ::= ["-"] dec+ ["/" dec+]   always written in decimal by     *)
-(*                Rink whatever the base; the reading in the base itself   *)
-(*                is admitted as well                                      *)
+(*   fraction ::= ["-"] digit+ "/" digit+   numerator and denominator are  *)
+(*                numerals of the reply's base like every other numeral    *)
+(*                of the reply (C05: "in every base ... as a fraction ...  *)
+(*                denotes exactly the computed rational"): `1/1000` in a   *)
+(*                hexadecimal reply is 1/4096.  No exponent marker: in     *)
+(*                `1/3e8` (base 16) the e is a digit.                      *)
 (*                                                                         *)
 (* "1." (a radix point with nothing behind it) is not a numeral.           *)
 (*                                                                         *)
@@ -175,7 +178,7 @@ SplitReadings(s, k, b) ==
 
 PosReadings(s, b) == UNION {SplitReadings(s, k, b) : k \in ExpSplits(s) \cup {0}}
 
-\* p/q and plain decimal integers
+\* p/q: numerator and denominator are numerals of base b
 FracIn(neg, ps, qs, b) ==
   IF ps = <<>> \/ qs = <<>> \/ ~AllDigits(ps, b) \/ ~AllDigits(qs, b) THEN {}
   ELSE { MkReading(neg, P, D, <<>>, QZero, "frac", 0, -1)
@@ -189,7 +192,7 @@ FracReadings(s, b) ==
      ELSE LET k == CHOOSE i \in sl : TRUE
               ps == Take(body, k - 1)
               qs == Drop(body, k)
-          IN FracIn(neg, ps, qs, 10) \cup (IF b = 10 THEN {} ELSE FracIn(neg, ps, qs, b))
+          IN FracIn(neg, ps, qs, b)
 
 Readings(s, b) ==
   IF s = <<>> THEN {}
@@ -243,14 +246,51 @@ SomeReading(s, b, P(_)) ==
   ELSE IF IsFracText(s) THEN \E r \in FracReadings(s, b) : P(r)
   ELSE \E k \in Splits(s) : \E r \in SplitReadings(s, k, b) : P(r)
 
+(* A formatter gone wrong prints digit salad, and in bases >= 15 some of it ends in "e1234567": the reading
+   mantissa x base^1234567 can never be the value or its truncation, but computing it would take hours.  A reading
+   with an exponent marker is therefore weighed first, in bits, without any long arithmetic.  With I integer
+   digits, G fraction and block digits, exponent E and a mantissa that is not all zeros,
+       base^(E-G) <= |reading| < base^(I+E)   and   ulp <= base^(E-F) <= base^(I+E),
+   and both Exact and Trunc need |reading| <= |v| < |reading| + ulp, hence
+       (E-G) * log2(base) <= log2|v| < 1 + (I+E) * log2(base).
+   log2|v| lies strictly between 12 * (limbs(n) - limbs(d) - 1) and 12 * (limbs(n) - limbs(d) + 1);
+   log2(base) between FloorLog2 and CeilLog2.  A reading outside these bounds satisfies none of the rules, so
+   leaving it out does not change any verdict. *)
+RECURSIVE TopLimb(_, _)
+TopLimb(a, i) == IF i = 0 THEN 0 ELSE IF a[i] # 0 THEN i ELSE TopLimb(a, i - 1)
+FloorLog2(b) == CHOOSE f \in 1..5 : 2 ^ f <= b /\ b < 2 ^ (f + 1)
+CeilLog2(b) == CHOOSE f \in 1..6 : 2 ^ (f - 1) < b /\ b <= 2 ^ f
+LogLow(x, b) == IF x >= 0 THEN x * FloorLog2(b) ELSE x * CeilLog2(b)      \* <= x * log2(b)
+LogHigh(x, b) == IF x >= 0 THEN x * CeilLog2(b) ELSE x * FloorLog2(b)     \* >= x * log2(b)
+AllZeroDigits(t) == \A i \in DOMAIN t : t[i] = 48
+
+Plausible(v, s, k, b) ==
+  LET m == SplitSyntax(s, k, b) IN
+  IF ~m.ok THEN FALSE                                   \* no reading at all
+  ELSE IF QIsZero(v) \/ AllZeroDigits(m.ip \o m.fp \o m.blk) THEN TRUE
+  ELSE LET e == SignedDec(Drop(s, k))
+           bits == 12 * (TopLimb(v.n.mag, Len(v.n.mag)) - TopLimb(v.d, Len(v.d)))
+       IN /\ LogLow(e - Len(m.fp) - Len(m.blk), b) < bits + 12
+          /\ bits - 12 < 1 + LogHigh(Len(m.ip) + e, b)
+
+\* SomeReading for the rules that compare with a value v (P(r) implies ExactR(r, v) \/ TruncR(r, v))
+SomeReadingOf(v, s, b, P(_)) ==
+  IF s = <<>> THEN FALSE
+  ELSE IF IsFracText(s) THEN \E r \in FracReadings(s, b) : P(r)
+  ELSE \E k \in Splits(s) : (k = 0 \/ Plausible(v, s, k, b)) /\ \E r \in SplitReadings(s, k, b) : P(r)
+
 Supported(s, b) ==
   /\ s # <<>>
   /\ IF IsFracText(s) THEN FracReadings(s, b) # {} ELSE \E k \in Splits(s) : SplitSyntax(s, k, b).ok
 
-ExactOK(v, s, b) == SomeReading(s, b, LAMBDA r : ExactR(r, v))
-ApproxOK(v, s, b) == SomeReading(s, b, LAMBDA r : TruncR(r, v))
-StrictOK(v, s, b) == SomeReading(s, b, LAMBDA r : StrictR(r, v))
-WithinOK(v, s, b) == SomeReading(s, b, LAMBDA r : ExactR(r, v) \/ TruncR(r, v))
+\* a well-formed numeral that uses digits the base does not have (`255/9` in an octal reply, a fraction
+\* written in decimal next to hexadecimal digits): it denotes nothing in base b, whatever the rule
+WrongBase(s, b) == ~Supported(s, b) /\ Supported(s, 36)
+
+ExactOK(v, s, b) == SomeReadingOf(v, s, b, LAMBDA r : ExactR(r, v))
+ApproxOK(v, s, b) == SomeReadingOf(v, s, b, LAMBDA r : TruncR(r, v))
+StrictOK(v, s, b) == SomeReadingOf(v, s, b, LAMBDA r : StrictR(r, v))
+WithinOK(v, s, b) == SomeReadingOf(v, s, b, LAMBDA r : ExactR(r, v) \/ TruncR(r, v))
 PeriodOK(s, b) ==
   s = <<>> \/ IsFracText(s)
   \/ \A k \in Splits(s) : LET m == SplitSyntax(s, k, b) IN m.ok => (m.per = -1 \/ m.per = Len(m.blk))
